@@ -64,8 +64,35 @@ class SymTimedelta:
             return o
         return NotImplemented
 
+    def _us(self):
+        if self.total_us is not None:
+            return self.total_us
+        if self.float_seconds is not None:
+            raise EngineLimit("integer view of a float-built symbolic timedelta")
+        return self.days * US_PER_DAY + self.seconds * 10 ** 6 + self.microseconds
+
     def total_seconds(self):
-        raise EngineLimit("total_seconds of a symbolic timedelta")
+        return SymFloat.from_any(self._us()) / 1000000.0
+
+    def __truediv__(self, other):
+        if _real_isinstance(other, _dt.timedelta):
+            o = (other.days * 86400 + other.seconds) * 10 ** 6 + other.microseconds
+            return SymFloat.from_any(self._us()) / float(o)      # int / int true division is correctly rounded
+        if _real_isinstance(other, (int, float)):
+            raise EngineLimit("symbolic timedelta / number")
+        return NotImplemented
+
+    def __floordiv__(self, other):
+        if _real_isinstance(other, _dt.timedelta):
+            o = (other.days * 86400 + other.seconds) * 10 ** 6 + other.microseconds
+            return self._us() // o
+        return NotImplemented
+
+    def __mod__(self, other):
+        if _real_isinstance(other, _dt.timedelta):
+            o = (other.days * 86400 + other.seconds) * 10 ** 6 + other.microseconds
+            return SymTimedelta(total_us=self._us() % o)
+        return NotImplemented
 
 
 class SymDT:
